@@ -134,26 +134,40 @@ def check_keep(eng, run):
 
 
 def check_lim(eng, run):
+    from sa.norm import nodes_inl
     fn = eng.db.fn("exceptions:LimitOverrunError.__init__")
-    loops = [n for n in own_nodes(fn.node) if isinstance(n, ast.While)]
+    nodes = list(nodes_inl(fn))  # the constructor and the private helpers it delegates to
+    loops = [(n, o) for n, o in nodes if isinstance(n, ast.While)]
+
+    def seps_of(owner):
+        """names that hold the separator in `owner`: a parameter whose len() is taken / that is sliced in a comparison"""
+        ps = {a.arg for a in owner.params()}
+        out = {dotted(c.args[0]) for c in own_nodes(owner.node) if isinstance(c, ast.Call) and getattr(c.func, "id", "") == "len" and c.args and dotted(c.args[0]) in ps}
+        return out or ({"separator"} & ps)
+
     ok_loop = False
-    for w in loops:
-        t = ast.unparse(w.test)
+    for w, owner in loops:
+        seps = seps_of(owner)
         # stop when the rest starts with a *prefix* of the separator of the remaining length
-        prefix_cmp = any(isinstance(c, ast.Compare) and any(isinstance(x, ast.Subscript) and isinstance(x.slice, ast.Slice) and x.slice.upper is not None and "nbytes" in ast.unparse(x.slice.upper) and dotted(x.value) == "separator"
-                                                            for x in ast.walk(c)) for c in ast.walk(w.test))
-        one_byte = any(isinstance(s, ast.Assign) and isinstance(s.value, ast.Subscript) and isinstance(s.value.slice, ast.Slice) and isinstance(s.value.slice.lower, ast.Constant) and s.value.slice.lower.value == 1
-                       and s.value.slice.upper is None for s in w.body)
+        prefix_cmp = any(isinstance(c, ast.Compare) and any(isinstance(x, ast.Subscript) and isinstance(x.slice, ast.Slice) and x.slice.upper is not None and "nbytes" in ast.unparse(x.slice.upper)
+                                                            and dotted(x.value) in seps for x in ast.walk(c)) for c in ast.walk(w.test))
+        one_byte = any(isinstance(s_, ast.Assign) and isinstance(s_.value, ast.Subscript) and isinstance(s_.value.slice, ast.Slice) and isinstance(s_.value.slice.lower, ast.Constant) and s_.value.slice.lower.value == 1
+                       and s_.value.slice.upper is None for s_ in w.body)
         ok_loop = ok_loop or (prefix_cmp and one_byte)
     if not ok_loop:
-        run.finding("C02.lim", fn, loops[0] if loops else fn.node, "LimitOverrunError no longer drops bytes one at a time until the rest is a *prefix* of the separator: a half-received separator does not survive an overrun (the next frame is delivered corrupted) or the tail of the oversized frame is kept")
-    run.ob("C02.lim", f"{fn.short}:skip-to-separator-prefix", ok_loop)
+        run.finding("C02.lim", fn, loops[0][0] if loops and loops[0][1] is fn else fn.node, "LimitOverrunError no longer drops bytes one at a time until the rest is a *prefix* of the separator: a half-received separator does not survive an overrun (the next frame is delivered corrupted) or the tail of the oversized frame is kept")
+    run.ob("C02.lim", f"{fn.short}:skip-to-separator-prefix", ok_loop, through_helpers=sorted({o.short for _, o in nodes if o is not fn}))
     # fast path removes exactly seplen; the remainder starts at `consumed`
-    src = ast.unparse(fn.node)
-    seplens = {k for k, vs in assignments(fn).items() for v in vs if isinstance(v, ast.Call) and getattr(v.func, "id", "") == "len" and v.args and dotted(v.args[0]) == "separator"}
-    fast = any(isinstance(n, ast.If) and isinstance(n.test, ast.Compare) and "separator" in ast.unparse(n.test) and any(isinstance(s, ast.Assign) and isinstance(s.value, ast.Subscript) and isinstance(s.value.slice, ast.Slice)
-                                                                                                                   and dotted(s.value.slice.lower) in seplens for s in n.body) for n in own_nodes(fn.node))
-    start = any(isinstance(n, ast.Assign) and isinstance(n.value, ast.Subscript) and isinstance(n.value.slice, ast.Slice) and dotted(n.value.slice.lower) == "consumed" for n in own_nodes(fn.node))
+    fast = False
+    for n, owner in nodes:
+        if isinstance(n, ast.If) and isinstance(n.test, ast.Compare) and any(dotted(x) in seps_of(owner) for x in ast.walk(n.test)):
+            seplens = {k for k, vs in assignments(owner).items() for v in vs if isinstance(v, ast.Call) and getattr(v.func, "id", "") == "len" and v.args and dotted(v.args[0]) in seps_of(owner)}
+            for s_ in n.body:
+                v = s_.value if isinstance(s_, (ast.Assign, ast.Return)) else None
+                if isinstance(v, ast.Subscript) and isinstance(v.slice, ast.Slice) and dotted(v.slice.lower) in seplens and v.slice.upper is None:
+                    fast = True
+    consumed = next((a.arg for a in fn.params() if "consumed" in a.arg), "consumed")
+    start = any(isinstance(n, ast.Subscript) and isinstance(n.slice, ast.Slice) and dotted(n.slice.lower) == consumed and n.slice.upper is None for n, o in nodes if o is fn)
     if not (fast and start):
         run.finding("C02.lim", fn, fn.node, "LimitOverrunError no longer computes its remainder as buffer[consumed:] minus exactly one leading separator")
     run.ob("C02.lim", f"{fn.short}:remainder-from-consumed", fast and start)
